@@ -24,11 +24,13 @@ package c10
 
 import (
 	"context"
+	"encoding/json"
 	"fmt"
 	"os"
 	"path/filepath"
 	"sort"
 	"strings"
+	"sync/atomic"
 	"testing"
 
 	remoteexecution "github.com/bazelbuild/remote-apis/build/bazel/remote/execution/v2"
@@ -53,7 +55,7 @@ import (
 type harness struct {
 	r   *ev.Run
 	tmp string
-	seq int
+	seq atomic.Int64
 }
 
 type finding struct {
@@ -287,8 +289,7 @@ func (o osOps) materialize(n *outkit.Node) error { return outkit.Materialize(o.a
 func (o osOps) snapshot() (*outkit.Node, error)  { return outkit.Snapshot(o.abs) }
 
 func (naiveBackend) open(h *harness, cas *outkit.Store) (builder.BuildDirectory, rootOps, func()) {
-	h.seq++
-	abs := filepath.Join(h.tmp, fmt.Sprintf("d%d", h.seq))
+	abs := filepath.Join(h.tmp, fmt.Sprintf("d%d", h.seq.Add(1)))
 	if err := os.Mkdir(abs, 0o777); err != nil {
 		panic(err)
 	}
@@ -402,20 +403,24 @@ func checkPreRun(cs *caseSpec, before *outkit.Node, f *findings) {
 
 // --- executor driver ------------------------------------------------------------
 
-func (h *harness) runExecutor(cs *caseSpec) {
+func (h *harness) runExecutor(cs *caseSpec, useVirtual bool) {
 	r := h.r
 	df := digestFunctions[0]
 	var f findings
 	counters := map[string]int{}
 	extra := map[string]any{}
+	driver := "executor/naive"
+	if useVirtual {
+		driver = "executor/virtual"
+	}
+	var stack *outkit.Stack
 	defer func() {
-		h.judge(cs, "executor/naive", &f, extra)
+		h.judge(cs, driver, &f, extra)
 		for k, v := range counters {
 			r.Count(k, v)
 		}
 	}()
-	h.seq++
-	buildRoot := filepath.Join(h.tmp, fmt.Sprintf("x%d", h.seq))
+	buildRoot := filepath.Join(h.tmp, fmt.Sprintf("x%d", h.seq.Add(1)))
 	if err := os.Mkdir(buildRoot, 0o777); err != nil {
 		panic(err)
 	}
@@ -438,8 +443,34 @@ func (h *harness) runExecutor(cs *caseSpec) {
 
 	var seenWD string
 	runner := &outkit.Runner{OnRun: func(ctx context.Context, req *runner_pb.RunRequest) (*runner_pb.RunResponse, error) {
-		abs := filepath.Join(buildRoot, req.InputRootDirectory)
 		seenWD = req.WorkingDirectory
+		if useVirtual {
+			root, err := stack.Virtual.Lookup(req.InputRootDirectory)
+			if err != nil {
+				panic(err)
+			}
+			before, err := outkit.SnapshotVirtual(root)
+			if err != nil {
+				panic(err)
+			}
+			checkPreRun(cs, before, &f)
+			if err := outkit.MaterializeVirtual(root, cs.Final); err != nil {
+				panic(fmt.Sprintf("harness: materialise produced hierarchy: %v", err))
+			}
+			// stdout and stderr live next to the input root.
+			buildDirectory, err := stack.Virtual.Lookup(filepath.Dir(req.StdoutPath))
+			if err != nil {
+				panic(err)
+			}
+			logs := outkit.NewDir()
+			logs.Children[filepath.Base(req.StdoutPath)] = &outkit.Node{Kind: outkit.KindFile}
+			logs.Children[filepath.Base(req.StderrPath)] = &outkit.Node{Kind: outkit.KindFile}
+			if err := outkit.MaterializeVirtual(buildDirectory, logs); err != nil {
+				panic(err)
+			}
+			return &runner_pb.RunResponse{}, nil
+		}
+		abs := filepath.Join(buildRoot, req.InputRootDirectory)
 		before, err := outkit.Snapshot(abs)
 		if err != nil {
 			panic(err)
@@ -455,16 +486,18 @@ func (h *harness) runExecutor(cs *caseSpec) {
 		}
 		return &runner_pb.RunResponse{}, nil
 	}}
-	stack, err := outkit.NewStack(outkit.StackConfig{
+	var err error
+	stack, err = outkit.NewStack(outkit.StackConfig{
 		BuildRoot: buildRoot, Plan: plan, CAS: cas, AC: ac, BatchSize: 100, PutConcurrency: 2,
 		Runner: runner, Clock: vclock.New(1_700_000_000), Fetcher: fetcher, ForceTrees: cs.ForceTrees, WorkerName: "c10",
+		Virtual: useVirtual,
 	})
 	if err != nil {
 		panic(err)
 	}
 	defer stack.Close()
 	updates := make(chan *remoteworker.CurrentState_Executing, 16)
-	resp := stack.Executor.Execute(context.Background(), nil, nil, df, &remoteworker.DesiredState_Executing{
+	resp := stack.Executor.Execute(context.Background(), stack.FilePool(), nil, df, &remoteworker.DesiredState_Executing{
 		ActionDigest: actionDigest.GetProto(), Action: action,
 	}, updates)
 	st := status.FromProto(resp.Status)
@@ -512,7 +545,7 @@ func (h *harness) runExecutor(cs *caseSpec) {
 func TestCheck(t *testing.T) {
 	r := ev.Start("C10")
 	defer r.Finish()
-	r.SetRule("generated Commands (working directory and 0-6 output paths built from name/./../empty components with duplicates, aliases, nesting, trailing separators, absolute/escaping/NUL forms; TREE_ONLY / DIRECTORY_ONLY / TREE_AND_DIRECTORY; forced trees) x generated produced hierarchies (file, executable, symlink, FIFO, missing, empty/random/deep/wide directories with repeated identical subdirectories, undeclared junk, input files); drivers: direct over naive directory (5 digest functions), direct over virtual directory, LocalBuildExecutor stack with snapshotting fake runner. Oracle: independent lexical normaliser + model walker + protowire Tree decoder. A case is non-trivial when it hits a listed situation; distinct = distinct (command, hierarchy, driver) hashes")
+	r.SetRule("generated Commands (working directory and 0-6 output paths built from name/./../empty components with duplicates, aliases, nesting, trailing separators, absolute/escaping/NUL forms; TREE_ONLY / DIRECTORY_ONLY / TREE_AND_DIRECTORY; forced trees) x generated produced hierarchies (file, executable, symlink, FIFO, missing, empty/random/deep/wide directories with repeated identical subdirectories, undeclared junk, input files); drivers: direct over naive directory (5 digest functions), direct over virtual directory, LocalBuildExecutor stack (native and virtual build directory) with snapshotting fake runner. Oracle: independent lexical normaliser + model walker + protowire Tree decoder. A case is non-trivial when it hits a listed situation; distinct = distinct (command, hierarchy, driver) hashes")
 	r.Assume("declared output paths are resolved lexically against the working directory (REv2: relative, '/' separated); symlink targets are compared up to redundant separators and '.' components")
 	r.Assume("a special file at a declared location may or may not fail the upload, but must not be listed; special files inside an output directory are omitted from its Tree")
 	r.Assume("output_files/output_directories of the Command are ignored when output_paths is used (only output_paths is implemented by this snapshot's NewOutputHierarchy)")
@@ -523,9 +556,11 @@ func TestCheck(t *testing.T) {
 		"escaping-or-absolute-working-directory", "declared-output-missing", "special-file-at-output-path",
 		"special-file-inside-output-directory", "output-is-symlink", "deep-directory", "wide-directory",
 		"tree-with-children-checked", "directory-messages-checked", "tree-depth-10-or-more",
-		"driver:direct/naive", "driver:direct/virtual", "driver:executor/naive",
+		"driver:direct/naive", "driver:direct/virtual", "driver:executor/naive", "driver:executor/virtual",
 	} {
-		r.Floor(s, 10)
+		if r.ReplayFile() == "" {
+			r.Floor(s, 10)
+		}
 	}
 	tmp, err := os.MkdirTemp("", "verif-c10-")
 	if err != nil {
@@ -534,8 +569,30 @@ func TestCheck(t *testing.T) {
 	defer os.RemoveAll(tmp)
 	h := &harness{r: r, tmp: tmp}
 
-	n := r.Pick(1200, 30000)
-	for i := 0; i < n; i++ {
+	n := r.Pick(1200, 20000)
+	const workers = 4
+	first := 0
+	if rf := r.ReplayFile(); rf != "" {
+		// Re-run exactly the recorded case.
+		var doc struct {
+			Witness struct {
+				Case struct {
+					Index int `json:"index"`
+				} `json:"case"`
+			} `json:"witness"`
+		}
+		raw, err := os.ReadFile(rf)
+		if err == nil {
+			err = json.Unmarshal(raw, &doc)
+		}
+		if err != nil {
+			r.Inconclusive("cannot use replay file: %v", err)
+			return
+		}
+		first, n = doc.Witness.Case.Index, doc.Witness.Case.Index+1
+	}
+	outkit.ParallelFor(n-first, workers, func(k int) {
+		i := first + k
 		rng := r.Rand(31, uint64(i))
 		driver := "direct/naive"
 		switch i % 10 {
@@ -543,6 +600,8 @@ func TestCheck(t *testing.T) {
 			driver = "direct/virtual"
 		case 4, 8:
 			driver = "executor/naive"
+		case 7:
+			driver = "executor/virtual"
 		}
 		cs := genCase(rng, i, true)
 		r.Case("case %d driver=%s wd=%q outputs=%q format=%s", i, driver, cs.WorkingDirectory, cs.OutputPaths, cs.Format)
@@ -552,7 +611,9 @@ func TestCheck(t *testing.T) {
 		case "direct/virtual":
 			h.runDirect(cs, virtualBackend{}, digestFunctions[i%len(digestFunctions)])
 		case "executor/naive":
-			h.runExecutor(cs)
+			h.runExecutor(cs, false)
+		case "executor/virtual":
+			h.runExecutor(cs, true)
 		}
 		r.Situation("driver:" + driver)
 		names := make([]string, 0, len(cs.Situations))
@@ -567,5 +628,5 @@ func TestCheck(t *testing.T) {
 		if i < 3 {
 			r.Sample(map[string]any{"driver": driver, "case": cs.describe(), "situations": names})
 		}
-	}
+	})
 }
